@@ -38,6 +38,7 @@ SHAPES = {
     "func": ["Rgate(sin({a})) | %(m)s"],
     "func_sqrt": ["Rgate(sqrt({a})*2) | %(m)s"],
     "pname": ["Dgate({p1}) | %(m)s"],
+    "qname": ["Dgate(2*{q1_2}+0.5, {q}) | %(m)s", "Sgate({q0_1}, k={qq}*{q12_0}) | %(m)s"],
     "long_names": ["Dgate({alpha}*{alpha_1}, {a_lpha}) | %(m)s"],
     "no_params": ["Dgate(%(f)s) | %(m)s"],
 }
